@@ -25,6 +25,13 @@ type Obligation struct {
 	Soft  bool // failure means "undecided" (e.g. unwinding of an un-annotated loop)
 }
 
+// viewInfo: a slice that is a snapshot view of an array stored in a struct or local cell.
+type viewInfo struct {
+	loc    *Loc
+	arrTyp types.Type
+	ref    *smt.Term
+}
+
 type hyp struct {
 	t *smt.Term
 }
@@ -76,6 +83,7 @@ type Exec struct {
 	oldSet               map[int]bool
 	divAlias             map[int]*smt.Term
 	rangeIDs             map[*ssa.Range]int
+	views                map[int]*viewInfo
 	divRest              map[[2]int]*smt.Term
 }
 
